@@ -41,7 +41,8 @@ import (
 
 type helper struct {
 	genesis []*types.GenesisInfo
-	gate    *gate // when set, CheckGroup is a two-party barrier (concurrent AddGroup scenario)
+	reject  map[string]bool // ids CheckGroup refuses
+	gate    *gate           // when set, CheckGroup is a two-party barrier (concurrent AddGroup scenario)
 }
 
 // gate releases two goroutines together (or each alone after 50 ms, so that a call that
@@ -93,6 +94,9 @@ func (h *helper) CheckGroup(g *types.Group) (bool, error) {
 	if gt := h.gate; gt != nil {
 		gt.wait()
 	}
+	if h.reject[string(g.Id)] {
+		return false, fmt.Errorf("verif: group refused by the consensus check")
+	}
 	return true, nil
 }
 func (h *helper) VerifyMemberInfo(bh *types.BlockHeader, preBH *types.BlockHeader) (bool, error) {
@@ -116,6 +120,7 @@ type node struct {
 	nBoot        int
 	inits        int
 	nExec        int
+	branch       map[string]int // op kind : result class -> count (input distribution of the stream)
 	forkUsed     bool           // the fork database (store prefix "groupFork") was written since the last boot
 	retained     []*types.Group // objects the chain handed out in the previous raw-store check
 	pending      []string       // results of the two concurrent AddGroup calls, in the order they are reported as cadd lines
@@ -279,6 +284,8 @@ func addErr(err error) string {
 		return "pre-mismatch"
 	case err.Error() == "nil group":
 		return "nil-group"
+	case strings.Contains(err.Error(), "refused by the consensus check"):
+		return "check-fail"
 	case strings.Contains(err.Error(), "injected write fault"):
 		return "write-error" // save returned the error of its batch write
 
@@ -628,7 +635,48 @@ func lessHex(a, b string) bool {
 }
 
 // exec answers one op line with the implementation.
+// exec answers one op line with the implementation and files (op kind, result class) in n.branch.
 func (n *node) exec(line string) string {
+	res := n.exec1(line)
+	if n.branch == nil {
+		n.branch = map[string]int{}
+	}
+	f := strings.Fields(line)
+	if len(f) > 0 {
+		kind := f[0]
+		if (kind == "crash" || kind == "fault") && len(f) > 2 {
+			kind += "-" + f[2]
+		}
+		if kind == "sqlfault" && len(f) > 3 {
+			kind += "-" + f[3]
+		}
+		cls := "value"
+		rf := strings.Fields(res)
+		switch {
+		case len(rf) == 0:
+			cls = "empty"
+		case strings.HasPrefix(res, "PANIC"):
+			cls = "PANIC"
+		case strings.Contains(res, " / "):
+			p := strings.SplitN(res, " / ", 2)
+			cls = strings.Fields(p[0])[len(strings.Fields(p[0]))-1] + "/" + strings.Fields(p[1])[0]
+		case kind == "add" || kind == "rmlast" || kind == "rmto" || kind == "switch" || kind == "cadd" || kind == "restart" ||
+			kind == "boot" || kind == "addrej" || kind == "addnil" || kind == "rmnil" || strings.HasPrefix(kind, "fault"):
+			cls = rf[0]
+		case res == "nil" || res == "none" || res == "dead" || res == "unmodelled" || res == "bad-op" || res == "LOOP":
+			cls = res
+		case kind == "avail" || kind == "availm" || kind == "iter" || kind == "sync" || kind == "syncat":
+			cls = fmt.Sprintf("%d-entries", len(rf))
+			if strings.Contains(res, "nil") {
+				cls += "+nil"
+			}
+		}
+		n.branch[kind+":"+cls]++
+	}
+	return res
+}
+
+func (n *node) exec1(line string) string {
 	n.nExec++
 	if n.nExec%256 == 0 {
 		if b, err := os.ReadFile("/proc/self/statm"); err == nil {
@@ -762,6 +810,25 @@ func (n *node) exec(line string) string {
 	}
 	if !n.alive {
 		return "dead"
+	}
+	if ws[0] == "addnil" && len(ws) == 1 {
+		return addErr(core.GetGroupChain().AddGroup(nil)) + " " + n.status()
+	}
+	if ws[0] == "rmnil" && len(ws) == 1 {
+		return strconv.FormatBool(core.VerifGroupChainRemove(nil)) + " " + n.status()
+	}
+	if ws[0] == "addrej" && len(ws) == 5 {
+		g, ok := parseGroup4(ws[1], ws[2], ws[3], ws[4])
+		if !ok {
+			return "bad-op"
+		}
+		n.h.reject = map[string]bool{string(g.Id): true}
+		res := guard(func() string { return addErr(core.GetGroupChain().AddGroup(g)) })
+		n.h.reject = nil
+		if strings.HasPrefix(res, "PANIC") {
+			return res
+		}
+		return res + " " + n.status()
 	}
 	if ws[0] == "switch" && len(ws) >= 2 {
 		// switch <h> <id,pre,parent,create[,members]>…: the real groupChainFork on the ancestor at height h
@@ -1380,6 +1447,10 @@ func (g *gen) mutator(allowCrash bool) string {
 			op = fmt.Sprintf("crash %d rmto %d", r.Intn(10), r.Intn(len(g.listed)+1))
 		}
 	}
+	if strings.HasPrefix(op, "add ") && len(strings.Fields(op)) == 5 && r.Chance(1, 2) {
+		// members (the evidence showed availm answering "none" 83 % of the time: groups had no members)
+		op += " " + []string{"e1", "e2e2", "e1+e3", "e3+e2e2+e1", "e1+e2e2"}[r.Intn(5)]
+	}
 	return op
 }
 
@@ -1519,6 +1590,17 @@ func (g *gen) randomSequence(maxOps int, allowCrash bool) {
 			g.emit(fmt.Sprintf("add %s %s %s %d %s", g.pool[g.r.Intn(len(g.pool))], g.last(), g.listed[0], g.create, ms))
 		} else if forkHook && g.r.Chance(1, 10) && len(g.listed) > 0 {
 			g.emit(g.switchOp())
+		} else if g.r.Chance(1, 25) {
+			g.emit([]string{"addnil", "rmnil"}[g.r.Intn(2)])
+			g.emit("dump")
+		} else if g.r.Chance(1, 20) && len(g.listed) > 0 {
+			g.create++
+			id := g.pool[g.r.Intn(len(g.pool))]
+			if g.r.Chance(1, 3) {
+				id = g.listed[g.r.Intn(len(g.listed))]
+			}
+			g.emit(fmt.Sprintf("addrej %s %s %s %d", id, g.last(), g.listed[0], g.create))
+			g.emit("dump")
 		} else {
 			op := g.mutator(allowCrash)
 			g.emit(op)
@@ -1780,6 +1862,8 @@ func (g *gen) exhaustive(depth int, crash bool) int {
 			}
 			if i == len(seq)-1 && crashK >= 0 && s != "S" {
 				op = fmt.Sprintf("crash %d %s", crashK, op)
+			} else if strings.HasPrefix(op, "add ") {
+				op += " " + []string{"e1", "e1+e2e2", "e3"}[i%3] // members, for the by-miner selection
 			}
 			g.emit(op)
 			g.resync()
@@ -2204,8 +2288,9 @@ func main() {
 		return
 	}
 	st := out.StatsJSON()
+	bb, _ := json.Marshal(n.branch)
 	vb, _ := json.Marshal(viols)
-	st = strings.TrimSuffix(st, "}") + fmt.Sprintf(",\"oracle_evaluations\":%d,\"viols\":%s,\"corpus_ops\":%d,\"random_sequences\":%d,\"exhaustive_sequences\":%d,\"exhaustive_depth\":%d,\"concurrent_rounds\":%d,\"boots\":%d,\"restarts\":%d,\"physical_writes\":%d}",
-		evals, string(vb), nCorpus, nSeq, nEx, depth, n.nConc, n.nBoot, n.nRestart, n.writes)
+	st = strings.TrimSuffix(st, "}") + fmt.Sprintf(",\"branches\":%s,\"oracle_evaluations\":%d,\"viols\":%s,\"corpus_ops\":%d,\"random_sequences\":%d,\"exhaustive_sequences\":%d,\"exhaustive_depth\":%d,\"concurrent_rounds\":%d,\"boots\":%d,\"restarts\":%d,\"physical_writes\":%d}",
+		string(bb), evals, string(vb), nCorpus, nSeq, nEx, depth, n.nConc, n.nBoot, n.nRestart, n.writes)
 	fmt.Println("STATS " + st)
 }
